@@ -201,7 +201,9 @@ func jsonAdmissible(t types.Type, seen map[types.Type]bool) (bool, string) {
 // passed to sort.Strings / sort.Ints / sort.Slice before anything else reads it.
 func (e *Engine) staticMapOrder(fnKey string) {
 	full := fnKey
-	if !strings.HasPrefix(full, modPath) {
+	if strings.HasPrefix(fnKey, "poly.") {
+		full = modPath + "." + strings.TrimPrefix(fnKey, "poly.")
+	} else if !strings.HasPrefix(full, modPath) {
 		full = modPath + "/" + fnKey
 	}
 	fn := e.lookupFunc(full)
@@ -358,7 +360,9 @@ func appendTarget(arr *ssa.Alloc) *ssa.Alloc {
 // i.e. no slice header in the result is copied out of a package-level variable.
 func (e *Engine) staticFreshResult(fnKey string) {
 	full := fnKey
-	if !strings.HasPrefix(full, modPath) {
+	if strings.HasPrefix(fnKey, "poly.") {
+		full = modPath + "." + strings.TrimPrefix(fnKey, "poly.")
+	} else if !strings.HasPrefix(full, modPath) {
 		full = modPath + "/" + fnKey
 	}
 	fn := e.lookupFunc(full)
@@ -460,7 +464,9 @@ func globalOrigin(v ssa.Value, seen map[ssa.Value]bool) (string, bool) {
 // only write storage owned by the value it was given and returns).
 func (e *Engine) staticWritesOwn(fnKey string) {
 	full := fnKey
-	if !strings.HasPrefix(full, modPath) {
+	if strings.HasPrefix(fnKey, "poly.") {
+		full = modPath + "." + strings.TrimPrefix(fnKey, "poly.")
+	} else if !strings.HasPrefix(full, modPath) {
 		full = modPath + "/" + fnKey
 	}
 	fn := e.lookupFunc(full)
